@@ -6,6 +6,4 @@ export CARGO_NET_OFFLINE=true
 mkdir -p /verif/replays /verif/evidence
 cargo build --release --offline 2>&1 | tail -3
 ./target/release/verif selftest
-if [ -d /verif/fuzz ] && [ -f /verif/fuzz/Cargo.toml ]; then
-  (cd /verif/fuzz && cargo +nightly fuzz build -O 2>&1 | tail -3) || echo "fuzz build failed (thorough fuzz campaigns unavailable)"
-fi
+# the libFuzzer targets (thorough tier) are built on demand by fuzz/run_fuzz.sh (about 4 min cold)
